@@ -2,7 +2,7 @@
     Statements only.  A notification = a well-formed request whose id is absent, null or ""
     ([is_notification_entry]); "executed once" = the log of the entry is the log of ONE
     execution of the dispatch target ([run_target]); the theorems below say what that log is. *)
-From JR Require Import Dispatch DispatchProofs DispatchTheorems.
+From JR Require Import Client Payload Dispatch DispatchProofs DispatchTheorems DispatchBridge.
 
 (** inline: no response object — whether the target returns, returns a Fault or raises — and the
     entry's invocation log is exactly one execution of the target *)
@@ -56,3 +56,37 @@ Theorem C04_batch_log : forall body sigs srvf srv dm entries,
   = flat_map (fun e => snd (answer_entry body sigs srvf srv dm e)) entries.
 Proof. exact batch_log. Qed.
 Print Assumptions C04_batch_log.
+
+(** whatever the registry and the dispatch function: one execution of the target enters nothing,
+    one callable once, or a declining instance-level _dispatch once followed by the resolved
+    function once — never a callable twice *)
+Theorem C04_target_log_shape : forall body sigs reg dm s p,
+  let log := snd (run_target body sigs reg dm s p) in
+  log = [] \/ (exists c a, log = [EvCall c a])
+  \/ (exists d c, log = [EvCall d (dispatch_args s p); EvCall c p]).
+Proof. exact target_log_shape. Qed.
+Print Assumptions C04_target_log_shape.
+
+(** a notification arriving alone is answered by the empty body … *)
+Theorem C04_alone_empty_body : forall body sigs srvf srv dm e,
+  is_notification_entry e = true ->
+  exists log, marshaled_dispatch body sigs srvf srv dm (PValue e) = Ok (REmpty, log).
+Proof. exact notification_alone_empty_body. Qed.
+Print Assumptions C04_alone_empty_body.
+
+(** … which the client turns into None: _run_request returns None for an empty reply and
+    check_for_errors(None) passes (C06 client model); _request_notify returns nothing *)
+Theorem C04_client_notify_none : check_for_errors VNone = Ok VNone.
+Proof. reflexivity. Qed.
+Print Assumptions C04_client_notify_none.
+
+(** what the client's Payload.notify builds (C14 message-construction model, versions 1.0 and
+    2.0, any id the caller passed) IS a notification for the dispatcher, with the same method
+    and parameters *)
+Theorem C04_client_notify_is_notification : forall fresh f i method params n req p' n',
+  String.eqb method "" = false -> is_param_container params = true ->
+  payload_notify fresh (mkPayload i (rat_ver f)) (VStr method) params n = Ok (req, p', n') ->
+  is_notification_entry req = true /\ method_of req = Some method
+  /\ (truthy params = true -> params_of req = params).
+Proof. exact client_notify_is_notification. Qed.
+Print Assumptions C04_client_notify_is_notification.
